@@ -98,6 +98,12 @@ CHECKS = {
   text="Every OS transition of the virtual keys' output keys must match the model to the tick and the layer-1 flag after every tick must match: press/release/tap/toggle semantics from on-press, on-release, macro items, completed sequences and direct handle_fakekey_action calls; hold-for-duration released exactly D ticks after its most recent activation, re-armed by activations at D-1 and pressed anew at D/D+1; on-idle fired exactly once, after T idle loop iterations since the last input / activation.",
   note="The idle trace is kanata's own is_idle() (C07's subject). A macro virtual key is modelled without held state. F45 (re-trigger of hold-for-duration after an explicit release presses nothing) is a known finding."),
 
+ "C19": dict(
+  cat="exploration", ref="DESIGN.md §4 C19",
+  technique="proptest-generated record / stop / play histories through the real keys; the stored recording is compared with the typed events (reference list), and the replay is compared differentially with a second instance in which the same events are typed at the replay's pace; proptest shrinking",
+  text="Stored recording = physical events between start and stop, in order, minus the stop key and the truncated tail, plus releases of exactly the keys still down; recorded delays = time to the next event. Replay output = output of typing the same events again from the same state, for time-insensitive and time-sensitive (tap-hold / tap-dance / one-shot) mappings and both replay delay behaviours. The replay ends, nothing is left down, a recording with its own play key does not loop, recording ends by itself at dynamic-macro-max-presses.",
+  note="The recording is read through the Debug rendering of Kanata.dynamic_macros (the item type is not nameable from outside). F46 (self-play handled after the replay state was dropped: endless replay) was repaired with a fix: commit; F47 (stop key recorded when the stop action is delayed by a pending decision) is a known finding."),
+
  "C17": dict(
   cat="exploration", ref="DESIGN.md §4 C17, Appendix A.4/D",
   technique="model-based property testing: exhaustive schedule enumeration over the tap-dance key and one other key with gaps {0,1,T-1,T,T+1} + proptest-generated longer histories, compared with a reference model of lazy and eager tap-dance",
